@@ -16,6 +16,7 @@ import shutil
 import numpy as np
 
 from harness import alpha, compare, core, gamma, shims, tlc, util
+from harness import spell
 from harness import keys as hkeys
 
 NOLIMIT = 99
@@ -73,7 +74,7 @@ def run_scenario(chk, sc, cfgseed, ndims):
     exp = sc["expect"]
     try:
         with core.quiet():
-            pck = PlotfileCooker(d, limit_level=lim, header_only=(mode == "header_only"),
+            pck = PlotfileCooker(spell.of(d, cfgseed)[0], limit_level=lim, header_only=(mode == "header_only"),
                                  maxmins=(mode == "maxmins"))
     except Exception as e:
         if exp["k"] == "err":
@@ -128,7 +129,7 @@ def run_scenario(chk, sc, cfgseed, ndims):
             if [[list(map(int, i[0])), list(map(int, i[1]))] for i in pc["indexes"]] != C["idx"]:
                 return "level %d index ranges %r, level header states %r" % (l, pc["indexes"], C["idx"])
             want_files = [os.path.join(d, C["dir"], fn) for fn, _ in C["fod"]]
-            if [os.path.normpath(f) for f in pc["files"]] != [os.path.normpath(f) for f in want_files]:
+            if [os.path.realpath(f) for f in pc["files"]] != [os.path.realpath(f) for f in want_files]:
                 return "level %d binary files %r, level header states %r" % (l, pc["files"], want_files)
             if [int(o) for o in pc["offsets"]] != [o for _, o in C["fod"]]:
                 return "level %d offsets %r, level header states %r" % (l, pc["offsets"], [o for _, o in C["fod"]])
